@@ -25,12 +25,14 @@ import (
 	"testing"
 	"time"
 
+	"github.com/ava-labs/avalanchego/database"
 	"github.com/ava-labs/avalanchego/database/memdb"
 	"github.com/ava-labs/avalanchego/ids"
 	"github.com/ava-labs/avalanchego/snow/engine/common"
 	"github.com/ava-labs/avalanchego/snow/engine/enginetest"
 	"github.com/ava-labs/avalanchego/snow/engine/snowman/block"
 	"github.com/ava-labs/avalanchego/snow/snowtest"
+	"github.com/ava-labs/avalanchego/utils/logging"
 	"github.com/prometheus/client_golang/prometheus"
 
 	"github.com/ava-labs/hypersdk/chainindex"
@@ -52,6 +54,10 @@ type cdisk struct {
 func (d *cdisk) snapshot(t *testing.T, atCrash func()) *cdisk {
 	d.mu.Lock()
 	defer d.mu.Unlock()
+	return d.snapshotLocked(t, atCrash)
+}
+
+func (d *cdisk) snapshotLocked(t *testing.T, atCrash func()) *cdisk {
 	defer atCrash()
 	cp := &cdisk{idx: memdb.New(), idxH: d.idxH, stateH: d.stateH, subLog: append([]int(nil), d.subLog...)}
 	it := d.idx.NewIterator()
@@ -76,6 +82,54 @@ type carrival struct {
 type csched struct {
 	gating atomic.Bool
 	arrive chan carrival
+
+	// write-granular crash: the durable image is captured right after the crashAt-th individual database write
+	// (Put / Delete / batch Write) of the chain index, i.e. possibly in the middle of one UpdateLastAccepted
+	armed      atomic.Bool
+	writes     int
+	crashAt    int
+	writeCrash func() // runs with the disk lock held (every index write happens under it)
+}
+
+// countDB is the database handed to chainindex.New: it counts the individual durable writes.
+type countDB struct {
+	database.Database
+	s *csched
+}
+
+func (d *countDB) wrote() {
+	if !d.s.armed.Load() {
+		return
+	}
+	d.s.writes++
+	if d.s.writes == d.s.crashAt && d.s.writeCrash != nil {
+		d.s.writeCrash()
+	}
+}
+
+func (d *countDB) Put(k, v []byte) error {
+	err := d.Database.Put(k, v)
+	d.wrote()
+	return err
+}
+
+func (d *countDB) Delete(k []byte) error {
+	err := d.Database.Delete(k)
+	d.wrote()
+	return err
+}
+
+func (d *countDB) NewBatch() database.Batch { return &countBatch{Batch: d.Database.NewBatch(), d: d} }
+
+type countBatch struct {
+	database.Batch
+	d *countDB
+}
+
+func (b *countBatch) Write() error {
+	err := b.Batch.Write()
+	b.d.wrote()
+	return err
 }
 
 func (s *csched) reach(kind string, h int) {
@@ -138,7 +192,7 @@ func (c *cchain) ParseBlock(_ context.Context, bs []byte) (*inBlk, error) {
 func (c *cchain) out(h int) *outBlk { return &outBlk{inBlk: c.blocks[h], state: []string{fmt.Sprint(h)}} }
 
 func (c *cchain) Initialize(ctx context.Context, in snow.ChainInput, vm *snow.VM[*inBlk, *outBlk, *accBlk]) (snow.ChainIndex[*inBlk], *outBlk, *accBlk, bool, error) {
-	idx, err := chainindex.New[*inBlk](ctx, in.SnowCtx.Log, prometheus.NewRegistry(), chainindex.NewDefaultConfig(), c, c.disk.idx)
+	idx, err := chainindex.New[*inBlk](ctx, in.SnowCtx.Log, prometheus.NewRegistry(), chainindex.NewDefaultConfig(), c, &countDB{Database: c.disk.idx, s: c.sched})
 	if err != nil {
 		return nil, nil, nil, false, err
 	}
@@ -223,7 +277,7 @@ func startNode(t *testing.T, ctx context.Context, disk *cdisk, sched *csched, bl
 	if len(msg) > 200 {
 		msg = msg[:200]
 	}
-	line := map[string]any{"ev": "start", "res": res, "msg": msg, "la": -1, "lp": -1, "root": -1, "results": -1, "nn": []int{}}
+	line := map[string]any{"ev": "start", "fam": "snow", "res": res, "msg": msg, "la": -1, "lp": -1, "root": -1, "results": -1, "nn": []int{}}
 	if res != "ok" {
 		return nil, line
 	}
@@ -280,9 +334,29 @@ func runCrashScenario(t *testing.T, no int, seed int64, nBlocks int) []map[strin
 	if node == nil {
 		t.Fatalf("driver: fresh node did not start: %v", start["msg"])
 	}
-	crashStep := rng.Intn(3*nBlocks + 2) // durable writes: idx, commit, notify per block
+	// two kinds of crash point: between two durable writes of Accept / processAccept chosen by the scheduler ("step"),
+	// or right after the k-th individual database write of the chain index ("write")
+	crashStep, crashWrite := rng.Intn(3*nBlocks+2), 0
+	if no%2 == 1 {
+		crashStep, crashWrite = 1<<30, 1+rng.Intn(2*nBlocks)
+	}
 	lines := []map[string]any{{"ev": "reset", "n": nBlocks, "no": no,
-		"phases": []map[string]any{{"family": "snow", "crash_after_writes": crashStep}}}, start}
+		"phases": []map[string]any{{"family": "snow", "crash_after_writes": crashStep, "crash_after_db_write": crashWrite}}}, start}
+	var snap *cdisk
+	atCrash := func() {
+		node.chain.evMu.Lock()
+		lines = append(lines, events...)
+		events = nil
+		node.chain.live.Store(false)
+		node.chain.evMu.Unlock()
+	}
+	fired := make(chan struct{})
+	sched.crashAt = crashWrite
+	sched.writeCrash = func() {
+		snap = disk.snapshotLocked(t, atCrash)
+		close(fired)
+	}
+	sched.armed.Store(true)
 
 	sched.gating.Store(true)
 	engDone := make(chan error, 1)
@@ -308,6 +382,9 @@ func runCrashScenario(t *testing.T, no int, seed int64, nBlocks int) []map[strin
 				parked = append(parked, a)
 			case err := <-engDone:
 				engRunning, engErr = false, err
+			case <-fired:
+				fired = nil
+				return
 			case <-time.After(quiet):
 				if len(parked) > 0 || !engRunning {
 					return
@@ -319,7 +396,7 @@ func runCrashScenario(t *testing.T, no int, seed int64, nBlocks int) []map[strin
 	}
 	for step := 0; ; step++ {
 		collect()
-		if step == crashStep || len(parked) == 0 {
+		if fired == nil || step == crashStep || len(parked) == 0 {
 			break
 		}
 		i := rng.Intn(len(parked))
@@ -327,14 +404,19 @@ func runCrashScenario(t *testing.T, no int, seed int64, nBlocks int) []map[strin
 		parked = append(parked[:i], parked[i+1:]...)
 		close(a.release)
 	}
-	// crash: the durable image as it is now
-	snap := disk.snapshot(t, func() {
-		node.chain.evMu.Lock()
-		lines = append(lines, events...)
-		events = nil
-		node.chain.live.Store(false)
-		node.chain.evMu.Unlock()
-	})
+	// crash: the durable image as it is now (unless a write-granular crash already captured it)
+	sched.armed.Store(false)
+	if fired != nil {
+		snap = disk.snapshot(t, atCrash)
+	}
+	// the index update is one atomic step of the specification: it has happened iff the image's last-accepted
+	// pointer names the block
+	if probe, err := chainindex.New[*inBlk](ctx, logging.NoLog{}, prometheus.NewRegistry(), chainindex.NewDefaultConfig(), node.chain, snap.idx); err == nil {
+		if p, err := probe.GetLastAcceptedHeight(ctx); err == nil && int(p) > snap.idxH {
+			lines = append(lines, map[string]any{"ev": "accept", "h": int(p)})
+			snap.idxH = int(p)
+		}
+	}
 	lines = append(lines, map[string]any{"ev": "crash", "idx": snap.idxH, "state": snap.stateH})
 	// the old process is gone: let it run out, nothing it does reaches the snapshot
 	sched.gating.Store(false)
@@ -380,7 +462,7 @@ func runCrashScenario(t *testing.T, no int, seed int64, nBlocks int) []map[strin
 	node2.chain.evMu.Lock()
 	lines = append(lines, events2...)
 	node2.chain.evMu.Unlock()
-	final := map[string]any{"ev": "final", "res": "ok", "msg": "", "la": -1, "lp": -1, "root": -1, "results": -1, "nn": []int{}}
+	final := map[string]any{"ev": "final", "fam": "snow", "res": "ok", "msg": "", "la": -1, "lp": -1, "root": -1, "results": -1, "nn": []int{}}
 	node2.observe(ctx, final)
 	lines = append(lines, final)
 	node2.chain.live.Store(false)
